@@ -9,6 +9,7 @@ DBUS_BUILD = os.path.join(BUILD, "dbus")
 COQ = os.path.join(VERIF, "coq")
 NPROC = os.cpu_count() or 4
 GUARD = "FREEDESKTOP_DBUS_VERIF"
+COQC_FILE_TIMEOUT = int(os.environ.get("VERIF_COQC_TIMEOUT", "420"))
 
 CFLAGS = ["-O1", "-g", "-fsanitize=address,undefined", "-fno-sanitize-recover=undefined", "-fno-omit-frame-pointer",
           "-DDBUS_COMPILATION", "-DHAVE_CONFIG_H", "-D_GNU_SOURCE", "-D" + GUARD, "-w"]
@@ -96,7 +97,8 @@ def coq_make(targets=None, keep_going=True):
     if not os.path.exists(os.path.join(COQ, "Makefile")) or \
             os.path.getmtime(os.path.join(COQ, "Makefile")) < os.path.getmtime(os.path.join(COQ, "_CoqProject")):
         sh(["coq_makefile", "-f", "_CoqProject", "-o", "Makefile"], cwd=COQ, check=True)
-    cmd = ["timeout", "1500", "make", "-j%d" % NPROC] + (["-k"] if keep_going else []) + (targets or [])
+    # per-file limit so that one runaway proof cannot hold the shared build lock for long
+    cmd = ["timeout", "1500", "make", "-j%d" % NPROC, "COQC=timeout %d coqc" % COQC_FILE_TIMEOUT] + (["-k"] if keep_going else []) + (targets or [])
     r = sh(cmd, cwd=COQ, timeout=1600)
     return r.returncode == 0, r.stdout + r.stderr
 
